@@ -154,10 +154,34 @@ def cli_trace(H):
     from picosvg import picosvg as cli
 
     if H.mode == "concrete":
-        H.prove(callable(cli._run), "cli.present")
+        # a real run of the command line on a document that already LOOKS like a picosvg (defs first, only g / path) but is not one
+        import contextlib
+        import io
+        import sys
+        import tempfile
+
+        doc = ('<svg xmlns="http://www.w3.org/2000/svg" viewBox="0 0 30 30"><defs/><path d="m1,1 h5.00049 v5 z" stroke="red" stroke-width="2" transform="translate(10 20)"/></svg>')
+
+        class F:
+            allow_text, drop_unsupported, clip_to_viewbox, output_file = False, False, False, "-"
+
+        old_flags, old_stdin = cli.FLAGS, sys.stdin
+        buf = io.StringIO()
+        try:
+            cli.FLAGS = F()
+            with tempfile.NamedTemporaryFile("w", suffix=".svg", delete=True) as f:
+                f.write(doc)
+                f.flush()
+                with contextlib.redirect_stdout(buf):
+                    cli._run(["picosvg", f.name])
+        finally:
+            cli.FLAGS, sys.stdin = old_flags, old_stdin
+        text = buf.getvalue()
+        H.prove("stroke" not in text and "transform" not in text and " h" not in text and "M11,21" in text, "cli.output_is_the_converted_document", detail=text[:300])
         return
     allow_text, drop, clip = H.bool("allow_text"), H.bool("drop_unsupported"), H.bool("clip_to_viewbox")
     source = H.case("input", ("file", "stdin"))
+    looks_pico = H.case("input_already_passes_the_structural_check", (False, True))
 
     class Flags:
         pass
@@ -166,7 +190,8 @@ def cli_trace(H):
     flags.allow_text, flags.drop_unsupported, flags.clip_to_viewbox, flags.output_file = allow_text, drop, clip, "-"
     parsed, converted = SVG(FakeElement(SVGNS + "svg", {})), SVG(FakeElement(SVGNS + "svg", {}))
     trace = []
-    returns = {"topicosvg": lambda s, *a, **k: converted, "tostring": lambda s, *a, **k: "<svg/>"}
+    # whatever the input looks like - also when checkpicosvg finds nothing to complain about - it has to go through topicosvg
+    returns = {"topicosvg": lambda s, *a, **k: converted, "tostring": lambda s, *a, **k: "<svg/>", "checkpicosvg": lambda s, *a, **k: () if looks_pico else ("BadElement: /svg[0]/rect[0]",)}
     _record_all_methods(H, SVG, trace, returns)
     H.override(SVG.__dict__["parse"].__func__, lambda I, cls, f: (trace.append(("parse", None, (f,), {})), parsed)[1])
     H.override(SVG.__dict__["fromstring"].__func__, lambda I, cls, s: (trace.append(("fromstring", None, (s,), {})), parsed)[1])
@@ -960,3 +985,19 @@ def state_flush(H):
     snapshot = [(local(k), dict(k.attrib)) for k in root.iterdescendants()]
     H.call(SVG._update_etree, svg)
     H.prove([(local(k), dict(k.attrib)) for k in root.iterdescendants()] == snapshot, "flush.second_flush_changes_nothing")
+
+
+@obligation(("C01", "C14", "C17"), "meta.splitns", functions=["svg_meta.splitns", "svg_meta.strip_ns"])
+def splitns_names(H):
+    """splitns / strip_ns take a qualified name apart at the closing brace and nowhere else: the local name is everything after it,
+    whatever characters XML allows in a name (hyphen, dot, underscore, digits, non-ASCII letters) - `g-emoji` is not `g`, so the tag
+    classifiers and the allow-list of the final gate never mistake an unknown element for a known one."""
+    from picosvg.svg_meta import splitns, strip_ns
+
+    ns = "http://www.w3.org/2000/svg"
+    for local in ("g", "g-emoji", "g.layer", "stop-marker", "linearGradient-x", "path_1", "defs2", "svg:g".replace(":", "-"), "é-g", "a"):
+        for q, want in ((f"{{{ns}}}{local}", (ns, local)), (local, (None, local)), (f"{{urn:x-y.z}}{local}", ("urn:x-y.z", local))):
+            r, e = H.catch(splitns, q)
+            H.prove(e is None and tuple(r) == want, "splitns.namespace_and_full_local_name", detail=f"{q!r}: {r!r} {e!r}")
+            r, e = H.catch(strip_ns, q)
+            H.prove(e is None and r == local, "strip_ns.full_local_name", detail=f"{q!r}: {r!r} {e!r}")
